@@ -256,6 +256,9 @@ MUST_FIRE = [
 
 # behaviour-preserving edits that must stay silent: (id, properties, file, old, new)
 SILENT_EDITS = [
+    ("hoist-decay-factor-in-update", ["C04", "C10"], BZ,
+     "        for s in queried:\n            self.u_t_ = self.u_t_ * ((self.w - 1) / self.w) + s\n",
+     "        decay = (self.w - 1) / self.w\n        for s in queried:\n            self.u_t_ = self.u_t_ * decay + s\n", ""),
     ("coreset-where-keeps-nan", ["C01", "C02"], P + "pool/_core_set.py",
      "            latest_distance_tmp = latest_distance.copy()\n            latest_distance_tmp[latest_distance_tmp == 0] = np.inf\n",
      "            latest_distance_tmp = np.where(latest_distance == 0, np.inf, latest_distance)\n", ""),
